@@ -22,7 +22,7 @@ use sos_net::{NetworkAccount, NetworkAccountOptions};
 use sos_protocol::AccountSync;
 use sos_reducers::FileReducer;
 use sos_server::{Server, ServerConfig, State};
-use sos_sync::StorageEventLogs;
+use sos_sync::{StorageEventLogs, SyncStorage};
 use sos_vault::secret::{FileContent, Secret, SecretMeta};
 use std::collections::{BTreeMap, BTreeSet};
 use std::path::{Path, PathBuf};
@@ -498,5 +498,28 @@ pub async fn run_case(idx: usize, hist: &Value, scratch: &Path, out: &mut Summar
     drop(w);
     out.count("teardown_ms", t_out.elapsed().as_millis() as u64);
     let _ = std::fs::remove_dir_all(&dir);
+    Ok(())
+}
+
+
+/// Diagnostic: diverging account logs on two NetworkAccount devices over a live server.
+pub async fn account_conflict_probe(scratch: &Path) -> Result<()> {
+    let dir = scratch.join("acct_probe");
+    let _ = std::fs::remove_dir_all(&dir);
+    std::fs::create_dir_all(&dir)?;
+    let mut w = World::new(&dir, 0).await?;
+    let d = *w.folders.get("d").unwrap();
+    w.reader.rename_folder(&d, "renamed by reader".to_string()).await?;
+    let r = w.reader.sync().await;
+    println!("reader sync after rename: first_error={:?}", r.first_error().map(|e| e.to_string()));
+    w.editor.rename_folder(&d, "renamed by editor".to_string()).await?;
+    let r = w.editor.sync().await;
+    println!("editor sync after rename: first_error={:?}", r.first_error().map(|e| e.to_string()));
+    let r = w.reader.sync().await;
+    println!("reader sync: first_error={:?}", r.first_error().map(|e| e.to_string()));
+    let a = w.editor.sync_status().await?;
+    let b = w.reader.sync_status().await?;
+    println!("statuses equal: {}", a == b);
+    w.handle.shutdown();
     Ok(())
 }
